@@ -50,6 +50,11 @@ Definition all_classes : list rclass :=
   [ {| r_get := false; r_flag := false |}; {| r_get := true; r_flag := false |};
     {| r_get := false; r_flag := true |};  {| r_get := true; r_flag := true |} ].
 
+(* a POST (or tcp frame with a stock index), a GET, a frame whose index word has the flag bit set *)
+Definition plain : rclass := {| r_get := false; r_flag := false |}.
+Definition get : rclass := {| r_get := true; r_flag := false |}.
+Definition flagged : rclass := {| r_get := false; r_flag := true |}.
+
 Definition is_none {A} (o : option A) : bool := match o with None => true | Some _ => false end.
 
 (* For each transport and each class of request (method / index flag, length announced or not):
